@@ -35,6 +35,7 @@ AUTOMUT_TRIAGE = [
 
 def run(chk):
     repo = chk.repo
+    cm.schema(chk, repo, "C18")
     d1_refusals(chk, repo)
     d2_state(chk, repo)
     d3_directions(chk, repo)
